@@ -1,5 +1,6 @@
 //! Bounded stand-in / failing-input search for unit U6 (extraction order, default cost) — NOT a proof.
 //! host: src/extract/with_ord.rs
+//! functions: AstSize::cost Extractor::extract WithOrdRev::cmp WithOrdRev::partial_cmp
 //! Bound: AstSize::cost on nodes with 0..4 children and child costs from {0, 1, 2, 7, u64::MAX-1, u64::MAX};
 //! WithOrdRev::partial_cmp / cmp on all pairs of costs from {0, 1, 2, 3, 10, u64::MAX}.
 //! Extractor::new / Extractor::extract (outside the contracts: BinaryHeap, class_nf, usages): 9 hand-written e-graphs
@@ -123,6 +124,22 @@ fn extraction_ok(eg: &XG) -> Result<usize, String> {
         }
         let want = reference.get(&i).cloned();
         if Some(AstSize.cost_rec(&t)) != want { return Err(format!("C06:extract.cheapest class {:?} (AstSize): the extracted term {} costs {}, the least cost of a term of the class is {:?}", i, t, AstSize.cost_rec(&t), want)); }
+    }
+    // the same class asked for under other argument names, among them the numeric names $0, $1, .. that shapes use for
+    // their bound slots (a binder of the stored best node must not capture an argument of the query)
+    for i in eg.ids() {
+        let mut cs: Vec<Slot> = eg.slots(i).into_iter().collect(); cs.sort();
+        if cs.is_empty() { continue; }
+        for base in [0u32, 1, 7] {
+            let m: SlotMap = cs.iter().enumerate().map(|(k, s)| (*s, Slot::numeric(base + k as u32))).collect();
+            let a = AppliedId::new(i, m);
+            let t = ast_size_extract(&a, eg);
+            k += 1;
+            match crate::lookup_rec_expr(&t, eg) {
+                None => return Err(format!("C06:extract.member class {:?} asked for as {:?}: the extracted term {} is not in the e-graph", i, a, t)),
+                Some(b) => if !eg.eq(&a, &b) { return Err(format!("C06:extract.member class {:?} asked for as {:?}: the extracted term {} denotes {:?}", i, a, t, b)); }
+            }
+        }
     }
     for cf in COSTS {
         let reference = reference_costs(eg, &cf);
